@@ -7,7 +7,9 @@ OPS = {'+': operator.add, '-': operator.sub, '*': operator.mul, '/': operator.tr
        '**': operator.pow, '<<': operator.lshift, '>>': operator.rshift, '&': operator.and_, '|': operator.or_, '^': operator.xor,
        'divmod': divmod, '<': operator.lt, '<=': operator.le, '==': operator.eq, '!=': operator.ne, '>=': operator.ge, '>': operator.gt}
 UNARY = {'neg': operator.neg, 'pos': operator.pos, 'abs': abs, 'invert': operator.invert, 'int': int, 'float': float, 'complex': complex}
-CAT = [0, 1, -1, 2, 7, -3, 10 ** 20, True, False, 0.0, -0.0, 1.5, -2.25, 1e-300, 1e300, float('inf'), float('-inf'), float('nan')]
+CAT = [0, 1, -1, 2, 7, -3, 10 ** 20, True, False, 0.0, -0.0, 1.5, -2.25, 1e-300, 1e300, float('inf'), float('-inf'), float('nan'),
+       # distinct values that are very close / equal only after rounding: comparisons are exact
+       0.1 + 0.2, 0.3, 1.0000000000000002, 2 ** 53 + 1, 2.0 ** 53, 2 ** 63 - 1, 2.0 ** 63, 1e-320, 5e-324]
 
 
 def _out(f, *a):
